@@ -256,8 +256,12 @@ impl CodeFormatter {
                     .spc_if_next()
                     .fmt(failure_message);
             }
-            Token::Braces { block, .. } | Token::Config(block) => {
-                self.format_block(block);
+            Token::Braces { block, .. } => {
+                // The trivia in front of the opening brace is the leading trivia of this statement: already taken care of
+                self.format_block(block, false);
+            }
+            Token::Config(block) => {
+                self.format_block(block, true);
             }
             Token::ConfigPair { key, eq, value } => {
                 self.push(&key.data)
@@ -454,7 +458,23 @@ impl CodeFormatter {
         }
     }
 
-    fn format_block(&mut self, block: &Block) {
+    fn format_block(&mut self, block: &Block, with_leading_trivia: bool) {
+        // Comments in front of the opening brace. Where the brace goes is decided below, so the newlines in front of it are
+        // not kept, except that a '//' comment has to be followed by one.
+        if let (true, Some(t)) = (with_leading_trivia, block.lparen.trivia.as_ref()) {
+            for triv in &t.data {
+                match triv {
+                    Trivia::CStyle(comment) => {
+                        self.push_type(ChunkType::Comment, comment);
+                    }
+                    Trivia::CppStyle(comment) => {
+                        self.push_type(ChunkType::Comment, comment).push("\n");
+                    }
+                    _ => (),
+                }
+            }
+        }
+
         match self.options.braces.position {
             BracePosition::SameLine => self.push(&block.lparen.data).push("\n"),
             BracePosition::NewLine => self.push("\n").push(&block.lparen.data).push("\n"),
@@ -601,7 +621,7 @@ basic_format!(&TextEncoding);
 
 impl Formattable for &Block {
     fn format(&self, formatter: &mut CodeFormatter) {
-        formatter.format_block(self);
+        formatter.format_block(self, true);
     }
 }
 
@@ -710,6 +730,11 @@ impl Formattable for &Vec<ArgItem<Identifier>> {
 impl Formattable for &Vec<ArgItem<SpecificImportArg>> {
     fn format(&self, formatter: &mut CodeFormatter) {
         for (path, comma) in *self {
+            // Comments in front of the name
+            if let Some(t) = path.trivia.as_ref() {
+                formatter.fmt(&t.data);
+            }
+
             formatter
                 .fmt(&path.data.path)
                 .spc_if_next()
